@@ -75,7 +75,7 @@ Fixpoint kproduct {V} (l : list (string * list V)) : list (list (string * V)) :=
    dict.  The code sorts the items first and expands afterwards; the sort only looks at the
    names, so expanding first and sorting afterwards is the same computation (P_Batch
    [isort_expand_items]) and is structurally recursive.
-   parameters_configuration({}) = [{}] (since the fix: commit of C29-empty-dict). *)
+   parameters_configuration({}) = [{}] (since fix commit 5d44935, finding C29-empty-dict). *)
 Fixpoint expand (v : pdef) : list comb :=
   match v with
   | PList l => map CVal (isort String.leb l)
